@@ -86,32 +86,87 @@ func RuleListen(r *Report, p *Program) {
 		r.Fatal("LS1", "Listen", "operation not found")
 		return
 	}
-	// the inner function that receives (pipe, q, listener): the in-package callee of Listen with a channel parameter
-	var inner *ssa.Function
-	for _, b := range lfn.Blocks {
-		for _, in := range b.Instrs {
-			if c, ok := in.(ssa.CallInstruction); ok {
-				if f := c.Common().StaticCallee(); f != nil && f.Pkg == p.SSAPkg("uhppote") && f.Signature.Recv() != nil && f != lfn {
-					for i := 0; i < f.Signature.Params().Len(); i++ {
-						if _, isCh := f.Signature.Params().At(i).Type().Underlying().(*types.Chan); isCh {
-							inner = f
-						}
+	// the listen chain: Listen and the in-package functions it calls, down to the one that binds the socket through
+	// the driver interface (today Listen -> listen; the two may be merged or split further). The datagram handler
+	// is the function value handed to the driver in that call.
+	upkL := p.SSAPkg("uhppote")
+	var chain []*ssa.Function
+	var bindCall ssa.CallInstruction
+	var find func(f *ssa.Function, seen map[*ssa.Function]bool) bool
+	find = func(f *ssa.Function, seen map[*ssa.Function]bool) bool {
+		if f == nil || f.Blocks == nil || seen[f] {
+			return false
+		}
+		seen[f] = true
+		for _, b := range f.Blocks {
+			for _, in := range b.Instrs {
+				if c, ok := in.(ssa.CallInstruction); ok && c.Common().IsInvoke() && c.Common().Method.Name() == "Listen" {
+					if n, ok := types.Unalias(c.Common().Value.Type()).(*types.Named); ok && n.Obj().Pkg() == upkL.Pkg {
+						bindCall = c
+						chain = append([]*ssa.Function{f}, chain...)
+						return true
 					}
 				}
 			}
 		}
+		for _, b := range f.Blocks {
+			for _, in := range b.Instrs {
+				if c, ok := in.(ssa.CallInstruction); ok {
+					if _, isGo := in.(*ssa.Go); isGo {
+						continue
+					}
+					if g := c.Common().StaticCallee(); g != nil && pkgOf(g) == upkL && g.Parent() == nil && find(g, seen) {
+						chain = append([]*ssa.Function{f}, chain...)
+						return true
+					}
+				}
+			}
+		}
+		return false
 	}
-	if inner == nil {
-		r.Fatal("LS1", "listen", "inner listen function not found")
+	if !find(lfn, map[*ssa.Function]bool{}) || bindCall == nil {
+		r.Fatal("LS1", "listen", "no call of the driver's Listen method reachable from the Listen operation")
 		return
 	}
-	// ---- LS1: the handler closure (the closure created in inner that takes []byte)
+	inner := chain[len(chain)-1]
+	inChain := map[*ssa.Function]bool{}
+	for _, f := range chain {
+		inChain[f] = true
+	}
+	// ---- LS1: the handler (the function value with a []byte parameter handed to the driver)
 	var handler *ssa.Function
-	for _, mc := range closuresOf(inner) {
-		f := mc.Fn.(*ssa.Function)
-		if f.Signature.Params().Len() == 1 {
+	for _, a := range bindCall.Common().Args {
+		v := a
+		if al, ok := v.(*ssa.UnOp); ok { // a closure stored in a local variable
+			if alloc, ok := al.X.(*ssa.Alloc); ok && alloc.Referrers() != nil {
+				for _, ref := range *alloc.Referrers() {
+					if st, ok := ref.(*ssa.Store); ok && st.Addr == ssa.Value(alloc) {
+						v = st.Val
+					}
+				}
+			}
+		}
+		var f *ssa.Function
+		switch x := v.(type) {
+		case *ssa.MakeClosure:
+			f = x.Fn.(*ssa.Function)
+		case *ssa.Function:
+			f = x
+		}
+		if f != nil && f.Signature.Params().Len() == 1 {
 			if _, ok := f.Signature.Params().At(0).Type().Underlying().(*types.Slice); ok {
 				handler = f
+			}
+		}
+	}
+	if handler == nil {
+		// a bound method or a handler built by another function: any closure of the binding function taking []byte
+		for _, mc := range closuresOf(inner) {
+			f := mc.Fn.(*ssa.Function)
+			if f.Signature.Params().Len() == 1 {
+				if _, ok := f.Signature.Params().At(0).Type().Underlying().(*types.Slice); ok {
+					handler = f
+				}
 			}
 		}
 	}
@@ -187,21 +242,31 @@ func RuleListen(r *Report, p *Program) {
 			r.Check(d == "", "LS2", typeName(evType), p.Pos(handler.Pos()), "no reference to mutable storage", "forwarded event type: "+d)
 		}
 	}
-	// ---- LS4 / LS5: inner listen
+	// ---- LS4 / LS5: the listen chain as one sequence (Listen with the chain's functions in line)
 	{
 		w := NewWalker(p)
-		w.Inline = func(f *ssa.Function, d int) bool { return false }
-		args := make([]*Term, len(inner.Params))
-		for i, prm := range inner.Params {
-			args[i] = &Term{Op: "param", Name: prm.Name(), Typ: prm.Type()}
-		}
-		paths := w.Walk(inner, args, nil)
+		w.Inline = func(f *ssa.Function, d int) bool { return inChain[f] }
+		paths := w.Walk(lfn, symbolicArgs(lfn), nil)
 		bad4, bad5 := "", ""
 		nOK := 0
 		for _, pa := range paths {
 			if pa.Outcome != "return" {
 				bad5 = "path ends in " + pa.Outcome
 				continue
+			}
+			// the channels handed to the driver: only they take part in the shutdown protocol (the event pipe, closed
+			// by a deferred call when Listen returns, belongs to LS3)
+			driverChans := map[string]bool{}
+			for _, e := range pa.Events {
+				if e.Kind == "call" && strings.HasPrefix(e.Name, "invoke:") && strings.HasSuffix(e.Name, ".Listen") {
+					for _, a := range e.Args[1:] {
+						if a.Typ != nil {
+							if _, isCh := a.Typ.Underlying().(*types.Chan); isCh {
+								driverChans[a.String()] = true
+							}
+						}
+					}
+				}
 			}
 			seq := []string{}
 			for _, e := range pa.Events {
@@ -213,7 +278,9 @@ func RuleListen(r *Report, p *Program) {
 				case e.Kind == "recv":
 					seq = append(seq, "recv:"+e.Name)
 				case e.Kind == "close":
-					seq = append(seq, "close:"+e.Name)
+					if driverChans[e.Name] || len(driverChans) == 0 {
+						seq = append(seq, "close:"+e.Name)
+					}
 				}
 			}
 			s := strings.Join(seq, " ")
@@ -266,10 +333,18 @@ func RuleListen(r *Report, p *Program) {
 		unbuffered := true
 		var consumer *goTarget
 		deferClose := false
-		for _, b := range lfn.Blocks {
+		var chainBlocks []*ssa.BasicBlock
+		for _, f := range chain {
+			chainBlocks = append(chainBlocks, f.Blocks...)
+		}
+		for _, b := range chainBlocks {
 			for _, in := range b.Instrs {
 				switch x := in.(type) {
 				case *ssa.MakeChan:
+					// the pipe carries events (pointers); the driver's stop/done channels carry no data
+					if _, isPtr := x.Type().Underlying().(*types.Chan).Elem().Underlying().(*types.Pointer); !isPtr {
+						continue
+					}
 					nChan++
 					if c, ok := constInt(x.Size); !ok || c != 0 {
 						unbuffered = false
@@ -279,7 +354,9 @@ func RuleListen(r *Report, p *Program) {
 					consumer = goTargetOf(x)
 				case *ssa.Defer:
 					if bi, ok := x.Call.Value.(*ssa.Builtin); ok && bi.Name() == "close" {
-						deferClose = true
+						if _, isPtr := x.Call.Args[0].Type().Underlying().(*types.Chan).Elem().Underlying().(*types.Pointer); isPtr {
+							deferClose = true
+						}
 					}
 				}
 			}
@@ -310,7 +387,7 @@ func RuleListen(r *Report, p *Program) {
 				}
 				res := f.Signature.Results()
 				if res.Len() == 1 && isBoolType(res.At(0).Type()) {
-					return false
+					return simplePredicate(f)
 				}
 				return helpers(f, d)
 			}
